@@ -480,6 +480,7 @@ def m_shutil_move(I_, a, k):
     except PyExc:
         fs.events[-1].extra['partial'] = True
         raise
+    ctx.assume(fs.lkind(dst) != ABSENT)       # the copy is complete
     try:
         ev = mutating(I_, 'delete-src', [src], [src], 'move-delete',
                       atomic=False)
@@ -487,6 +488,7 @@ def m_shutil_move(I_, a, k):
         fs.events[-1].extra['partial'] = True
         raise
     ctx.assume(fs.lkind(src) == ABSENT)
+    ctx.assume(fs.lkind(dst) != ABSENT)       # deleting src leaves dst alone
     return mk(dst)
 
 
